@@ -270,6 +270,15 @@ int EvalExpression::parse_unary_new(AsmContext *asm_context, Var &answer)
   char token[TOKENLEN];
   int token_type;
 
+  // Every prefix operator is one level of recursion: keep it bounded.
+  static int unary_depth = 0;
+
+  if (unary_depth >= MAX_PAREN_DEPTH)
+  {
+    print_error(asm_context, "Expression is nested too deeply");
+    return -1;
+  }
+
   answer.clear();
 
   token_type = tokens_get(asm_context, token, TOKENLEN);
@@ -291,13 +300,19 @@ int EvalExpression::parse_unary_new(AsmContext *asm_context, Var &answer)
     else
   if (IS_TOKEN(token, '~'))
   {
-    if (parse_unary_new(asm_context, answer) != 0) { return -1; }
+    unary_depth++;
+    int ret = parse_unary_new(asm_context, answer);
+    unary_depth--;
+    if (ret != 0) { return -1; }
     answer.complement();
   }
     else
   if (IS_TOKEN(token, '-'))
   {
-    if (parse_unary_new(asm_context, answer) != 0) { return -1; }
+    unary_depth++;
+    int ret = parse_unary_new(asm_context, answer);
+    unary_depth--;
+    if (ret != 0) { return -1; }
     answer.negative();
   }
     else
